@@ -24,7 +24,7 @@ type config struct {
 
 // runScriptBounded runs one script, the whole answer is TIMEOUT when it takes too long.
 func runScriptBounded(line string, cfg config) string {
-	if strings.HasPrefix(line, "stream ") {
+	if strings.HasPrefix(line, "stream ") || strings.HasPrefix(line, "mstream ") {
 		return runStream(line)
 	}
 	abort := make(chan struct{})
